@@ -69,6 +69,18 @@ def g5_module_pairs(pkg: Package, res: Resolver, col: Collector, only: Optional[
         methods = res.find_method(ci, mname)
         if not methods:
             raise AnalysisError(f"{cname}.{mname} not found for wrapper {f.name}")
+        # the functional and its Module are one interface: an option both accept has ONE default (76 pairs on the tree, all equal) - with
+        # different ones the same call means different things through the two entry points
+        fdef = {p.name: p.default for p in f.params if getattr(p, "default", None) is not None}
+        for init in res.find_method(ci, "__init__") or []:
+            for p in init.params:
+                d = getattr(p, "default", None)
+                if d is not None and p.name in fdef and isinstance(d, ast.Constant) and isinstance(fdef[p.name], ast.Constant):
+                    same = d.value == fdef[p.name].value and type(d.value) is type(fdef[p.name].value)
+                    col.count("g5_shared_defaults", 1)
+                    col.ob("G5", clause, f"{f.module.relname}::{f.name}::default({p.name})=={cname}", same,
+                           f"`{p.name}` defaults to {ast.unparse(fdef[p.name])} in the functional {f.name} and to {ast.unparse(d)} in {cname}: the same "
+                           f"arguments give different results through the two entry points", f.module.relname, f.line, nontrivial=False)
         for m in methods:
             where = f"{m.module.relname}::{m.qualname}"
             calls = []
